@@ -52,7 +52,7 @@ def parseSeries (tok : String) : Option Series :=
   | [n, rest] => match rest.splitOn "}@" with
     -- a leading ^ : the OTSDB datapoints with an odd point index spell the first byte of the NAME as a \u00XX escape
     | [ls, ps] => match hexStr? (if n.startsWith "^" then (n.drop 1).toString else n), parseLabels ls, parsePoints ps with
-      | some n, some ls, some ps => some { name := n, labels := ls.1, points := ps, numKeys := ls.2.1, badKeys := ls.2.2 }
+      | some nm, some ls, some ps => some { name := nm, labels := ls.1, points := ps, numKeys := ls.2.1, badKeys := ls.2.2, nameEscaped := n.startsWith "^" }
       | _, _, _ => none
     | _ => none
   | _ => none
@@ -86,6 +86,8 @@ def applyHistory (ss : List Series) (hist : List String) : Option (List Series) 
       let numSent := mine.any (fun (_, j, w) => !w && j % 2 == 0)
       { s with points := mine.map (fun (_, j, _) => s.points.getD j default),
                viaRW := mine.any (·.2.2),
+               -- the escaped spelling is sent by the OTSDB datapoints with an odd point index only
+               nameEscaped := s.nameEscaped && mine.any (fun (_, j, w) => !w && j % 2 == 1),
                numKeys := if numSent then s.numKeys else [] }))
 
 /-- history tokens `tf` (one pass of the tags-tree flush timer) and `cr` (the WAL timers run once, the process is killed,
@@ -319,8 +321,13 @@ def answerExpr (xcls : List String) (ds : List Series) (q : ExprQuery) : String 
 def answerLv (xcls : List String) (ds : List Series) (q : LvQuery) : String :=
   let vals := dedupS (((ds.filter accepted).filter (fun s => !s.points.isEmpty)).filterMap (fun s =>
     (s.labels.find? (·.1 == q.label)).map (·.2)))
-  let cls := ",".intercalate (xcls ++ (if (ds.filter (fun s => !s.points.isEmpty)).any (fun s => !s.badKeys.isEmpty) then ["tag-value-not-a-string"] else []))
-  s!"kind=mlv vals={",".intercalate (sortStrings (vals.map hexOf))} cls={cls} lat="
+  -- (repaired, c09-24) the rotated tags tree of a key was read for its first metric only
+  let names := dedupS (((ds.filter accepted).filter (fun s => !s.points.isEmpty && s.keys.contains q.label)).map (·.name))
+  let cls := ",".intercalate (xcls ++ (if (ds.filter (fun s => !s.points.isEmpty)).any (fun s => !s.badKeys.isEmpty) then ["tag-value-not-a-string"] else [])
+    ++ (if names.length > 1 then ["label-values-first-metric-only"] else [])
+    -- (repaired, c09-17) the values of every tag key of the time range were returned
+    ++ (if ((ds.filter accepted).filter (fun s => !s.points.isEmpty)).any (fun s => s.keys.any (· != q.label)) then ["label-values-of-all-keys"] else []))
+  s!"kind=mlv vals={",".intercalate (sortStrings (vals.map (fun v => "x" ++ hexOf v)))} cls={cls} lat="
 
 def answerAny (xcls : List String) (ds : List Series) : AnyQuery → String
   | .plain q => answer xcls ds q
